@@ -76,7 +76,7 @@ def r20_1(ctx):
     getm = c.method("get")
     if getm is not None:
         src = norm(getm.node)
-        ctx.check("self._entries[-1]" in src, getm.fq, "def get", getm.where, "get() reads the top entry at call time", "ThemeStack.get does not read self._entries[-1]")
+        ctx.shape("self._entries[-1]" in src, getm.fq, "def get", getm.where, "get() reads the top entry at call time", "ThemeStack.get does not read self._entries[-1]")
         return
     n = 0
     for name, lst in c.methods.items():
@@ -400,7 +400,7 @@ def r20_6(ctx):
         okr = len(calls_) == 1 and ((kwarg(calls_[0], "inherit") is not None and norm(kwarg(calls_[0], "inherit")) == "inherit") or (len(calls_[0].args) > 2 and norm(calls_[0].args[2]) == "inherit"))
         ctx.check(okr, rd_.fq, short(calls_[0]) if calls_ else "from_file(...)", rd_.where, "Theme.read forwards inherit to from_file", "Theme.read does not forward `inherit` to from_file")
     src = norm(ff.node)
-    ctx.check("Style.parse(value)" in src and "config.items('styles')" in src, ff.fq, "from_file", ff.where, "from_file parses every value of [styles] with Style.parse", "Theme.from_file no longer parses the [styles] values with Style.parse")
+    ctx.shape("Style.parse(value)" in src and "config.items('styles')" in src, ff.fq, "from_file", ff.where, "from_file parses every value of [styles] with Style.parse", "Theme.from_file no longer parses the [styles] values with Style.parse")
 
 
 def r20_7(ctx):
